@@ -173,4 +173,13 @@ func init() {
 	}
 	fire("C09", "grown-seed-shared-with-started-worker", cl, loopHead, hoisted("go func() { recurseLigate(wg, c, newSeed, fragmentList) }()"), "STATE/go-capture")
 	silent("C09", "grown-seed-passed-to-started-worker", cl, loopHead, hoisted("go func(seed Fragment) { recurseLigate(wg, c, seed, fragmentList) }(newSeed)"))
+	fa := "io/fasta/fasta.go"
+	hdrFind := `(?s)import \(\n(.*?)\t\tfastaString\.WriteString\(">"\)\n\t\tfastaString\.WriteString\(fasta\.Name\)\n\t\tfastaString\.WriteString\("\\n"\)\n`
+	fire("C13", "record-name-used-as-format", fa, hdrFind, "import (\n\t\"fmt\"\n${1}\t\tfmt.Fprintf(&fastaString, \">\"+fasta.Name+\"\\n\")\n", "STATE/format")
+	silent("C13", "record-name-formatted-with-verb", fa, hdrFind, "import (\n\t\"fmt\"\n${1}\t\tfmt.Fprintf(&fastaString, \">%s\\n\", fasta.Name)\n")
+	fire("C20", "decoder-made-lenient", "io/uniprot/uniprot.go", `\tdecoder := xml\.NewDecoder\(r\)\n`, "\tdecoder := xml.NewDecoder(r)\n\tdecoder.Strict = false\n", "GUARD/decoder stays strict")
+	fire("C04", "strands-rotated-by-goroutines-appending-to-one-slice", sh, `(?s)import \(\n(.*?)\t\tpotentialSequences := \[\]string\{RotateSequence\(sequence\), RotateSequence\(transform\.ReverseComplement\(sequence\)\)\}\n`,
+		"import (\n\t\"sync\"\n${1}\t\tvar potentialSequences []string\n\t\tvar rotations sync.WaitGroup\n\t\tfor _, strand := range []string{sequence, transform.ReverseComplement(sequence)} {\n\t\t\trotations.Add(1)\n\t\t\tgo func(strand string) {\n\t\t\t\tdefer rotations.Done()\n\t\t\t\tpotentialSequences = append(potentialSequences, RotateSequence(strand))\n\t\t\t}(strand)\n\t\t}\n\t\trotations.Wait()\n", "STATE/go-shared-write")
+	fire("C15", "parsed-file-remembered-by-path", pj, `(?s)"encoding/json"\n(.*?)func Read\(path string\) poly\.Sequence \{\n\tfile, _ := ioutil\.ReadFile\(path\)\n\tsequence := Parse\(file\)\n`,
+		"\"encoding/json\"\n\t\"sync\"\n${1}var parsedFiles sync.Map\n\nfunc Read(path string) poly.Sequence {\n\tif cached, ok := parsedFiles.Load(path); ok {\n\t\treturn cached.(poly.Sequence)\n\t}\n\tfile, _ := ioutil.ReadFile(path)\n\tsequence := Parse(file)\n\tparsedFiles.Store(path, sequence)\n", "STATE/memo-key")
 }
